@@ -23,7 +23,7 @@ TIDS = [1, 0xFFFF, 0]
 
 def configs(front):
     out = []
-    for single, units in ((True, (1,)), (False, (1, 2))):
+    for single, units in ((True, (1,)), (False, (1, 2)), (False, (1, 255))):      # hosting 255 lets every unit id reach execute()
         for bc in (False, True):
             for ign in (False, True):
                 if bc and front.startswith('tw'):
@@ -119,6 +119,23 @@ def shard(args):
                 modes += ('timeout+split',)
             for delivery in modes:
                 run_one(acc, front, framing, cfg, seq, delivery)
+    # a hosted unit's datastore raises while a write is applied: a broadcast is still never answered, a directed
+    # write is answered exactly once with exception 04 echoing the request's ids (same scenario as C10's fault cases)
+    from checks import c10
+    tmp = Acc()
+    for hosted in (None, (1, 2)):
+        for bc in (False, True):
+            if bc and front.startswith('tw'):
+                continue
+            for fail_unit in ([0] if hosted is None else list(hosted)):
+                for u in ([0, 1] if hosted is None else [0, 1, 2]):
+                    c10.run_fault(tmp, front, framing, hosted, bc, False, fail_unit, u)
+                    acc.inc('evaluations')
+                    acc.inc('transitions')
+    for v in tmp.violations:
+        what = v['sig'].split('/')[-1]
+        acc.violation('C09/%s/%s/%s/per-read/%s/W' % (front, framing, what, 'single' if v['witness']['hosted'] is None else 'multi'),
+                      dict(v['witness'], fault=True), v['msg'], '%s/%s' % (front, framing))
     acc.inc('states', len(nodes))
     acc.add('nontrivial', (front, framing))
     acc.sample(dict(front=front, framing=framing, example_sequence=['R', 'W', 'UA'],
@@ -147,6 +164,10 @@ def run(tier, seed):
 
 def replay(w):
     acc = Acc()
+    if w.get('fault'):
+        from checks import c10
+        p = c10.run_fault(acc, w['front'], w['framing'], tuple(w['hosted']) if w['hosted'] else None, w['bc'], w['ign'], w['fail_unit'], w['steps'][0][0])
+        return bool(p), str(p)
     cfg = scenario.Cfg(*w['cfg'])
     p = run_one(acc, w['front'], w['framing'], cfg, tuple(w['seq']), w['delivery'])
     return bool(p), '\n'.join('%s: %s' % (v['sig'], v['msg']) for v in acc.violations) or 'no violation'
